@@ -120,6 +120,15 @@ class C02(C01):
             if c["kind"] in ("double", "sandwich") and k < (2 if tier == "quick" else 24):
                 c["fresh_interpreters"] = True
                 k += 1
+        # … and those where a block carries two slave patches of merged pairs (its corners on both are looked up by a
+        # *set* of patch names, whose iteration order depends on the string hash seed)
+        k = 0
+        for c in cases:
+            cuts = c.get("asm", {}).get("cuts", [])
+            two = len(cuts) == 2 and (all("plane" in x for x in cuts) or (not any("plane" in x for x in cuts) and cuts[0]["b"] == cuts[1]["b"]))
+            if two and k < (4 if tier == "quick" else 30):
+                c["fresh_interpreters"] = True
+                k += 1
         # lone blocks with 0..3 chopped directions (nothing to propagate from: undefined unless all three are chopped)
         for k in range(6 if tier == "quick" else 40):
             asm = pc.gen_assembly(rng, 1)
